@@ -1,0 +1,100 @@
+//! Verification hooks (C12): thin read-only wrappers around private functions.
+//! Compiled only with `--cfg linfa_verif`.
+use super::*;
+use ndarray::{Array1, Array2};
+
+/// `label_classes`: (positive class, negative class, +-1 targets)
+pub fn label_classes_hook<C: Ord + Clone>(
+    y: &Array1<C>,
+) -> std::result::Result<(C, C, Array1<f64>), Error> {
+    let (labels, target) = label_classes::<f64, _, C>(y)?;
+    Ok((labels.pos.class, labels.neg.class, target))
+}
+
+/// `label_classes_multi`: (sorted distinct classes, one-hot matrix)
+pub fn label_classes_multi_hook<C: Ord + Clone>(
+    y: &Array1<C>,
+) -> std::result::Result<(Vec<C>, Array2<f64>), Error> {
+    label_classes_multi::<f64, _, C>(y)
+}
+
+pub fn logistic_hook(x: f64) -> f64 {
+    logistic(x)
+}
+
+pub fn log_logistic_hook(x: f64) -> f64 {
+    log_logistic(x)
+}
+
+pub fn log_sum_exp_rows_hook(m: &Array2<f64>) -> Array1<f64> {
+    log_sum_exp(m, Axis(1))
+}
+
+pub fn softmax_hook(v: &Array1<f64>) -> Array1<f64> {
+    let mut v = v.clone();
+    softmax_inplace(&mut v);
+    v
+}
+
+pub fn logistic_loss_hook(x: &Array2<f64>, y: &Array1<f64>, alpha: f64, w: &Array1<f64>) -> f64 {
+    logistic_loss(x, y, alpha, w)
+}
+
+pub fn logistic_grad_hook(
+    x: &Array2<f64>,
+    y: &Array1<f64>,
+    alpha: f64,
+    w: &Array1<f64>,
+) -> Array1<f64> {
+    logistic_grad(x, y, alpha, w)
+}
+
+pub fn multi_logistic_loss_hook(
+    x: &Array2<f64>,
+    y: &Array2<f64>,
+    alpha: f64,
+    w: &Array2<f64>,
+) -> f64 {
+    multi_logistic_loss(x, y, alpha, w)
+}
+
+pub fn multi_logistic_grad_hook(
+    x: &Array2<f64>,
+    y: &Array2<f64>,
+    alpha: f64,
+    w: &Array2<f64>,
+) -> Array2<f64> {
+    multi_logistic_grad(x, y, alpha, w)
+}
+
+/// a fitted binary model with the given parameters (constructor is private)
+pub fn fitted_binary_hook<C: PartialOrd + Clone>(
+    intercept: f64,
+    params: Array1<f64>,
+    pos: C,
+    neg: C,
+) -> FittedLogisticRegression<f64, C> {
+    FittedLogisticRegression::new(
+        intercept,
+        params,
+        BinaryClassLabels {
+            pos: ClassLabel {
+                class: pos,
+                label: 1.0,
+            },
+            neg: ClassLabel {
+                class: neg,
+                label: -1.0,
+            },
+        },
+    )
+}
+
+/// a fitted multinomial model with the given parameters (constructor is private)
+pub fn fitted_multi_hook<C: PartialOrd + Clone>(
+    intercept: Array1<f64>,
+    params: Array2<f64>,
+    classes: Vec<C>,
+) -> MultiFittedLogisticRegression<f64, C> {
+    MultiFittedLogisticRegression::new(intercept, params, classes)
+}
